@@ -759,6 +759,14 @@ func c05(c *Ctx) {
 	for _, l := range c.CorpusLines() {
 		// corpus line: fmt <lang> <optsmask> <hexsrc>
 		fs := strings.Fields(l)
+		if len(fs) == 2 && fs[0] == "src" {
+			// seed program: every variant, the fixed option sets and some sampled ones
+			j := job{src: unhx(fs[1]), langs: allLangs}
+			j.opts = append(j.opts, c05Opts{}, c05Opts{single: true}, c05Opts{minify: true}, c05Opts{binNext: true, swtCase: true, funcNext: true},
+				c05Opts{indent: 2, single: true, binNext: true}, c05Opts{indent: 4, swtCase: true, keepPad: true})
+			jobs = append(jobs, j)
+			continue
+		}
 		if len(fs) != 4 || fs[0] != "fmt" {
 			continue
 		}
@@ -827,6 +835,9 @@ func c05(c *Ctx) {
 				}
 			}
 			sexp, dump, dumpPanic := c05Dump(f)
+			if os.Getenv("VERIF_C05_DUMP") != "" {
+				fmt.Fprintf(os.Stderr, "DUMP %s %q skip=%q\n%s\n", langName(lang), j.src, dump.skip, sexp)
+			}
 			if dumpPanic != "" {
 				c.Hist["dump-panic"]++
 			} else if dump.skip != "" {
@@ -898,7 +909,6 @@ func c05(c *Ctx) {
 		c.Extra["programs-with "+k] = n
 	}
 	c.Extra["programs"] = nProgs
-	_ = os.Stderr
 }
 
 func c05Bucket(n int) int {
@@ -1035,6 +1045,13 @@ func c05Regions(o c05Opts, f *syntax.File) []string {
 			}
 			if fd, ok := n.Cmd.(*syntax.FuncDecl); ok && len(fd.Body.Comments) > 0 && stmtEndsBare(fd.Body) {
 				set("comment-after-bare-time-coproc") // F5 (comment queued before the body is flushed after it)
+			}
+			if fd, ok := n.Cmd.(*syntax.FuncDecl); ok {
+				for _, c := range fd.Body.Comments {
+					if c.Pos().After(fd.Body.Pos()) {
+						set("funcdecl-body-trailing-comment") // F13a: printed before the body
+					}
+				}
 			}
 			fc, isFor := n.Cmd.(*syntax.ForClause)
 			for _, c := range n.Comments {
